@@ -261,7 +261,9 @@ Next ==
            \E op \in ({"append", "insert", "setitem", "setslice", "extend", "mset"} \cap Ops)
                       \cup (IF "setslice" \in Ops THEN {"setext"} ELSE {}) :
            \E k \in 1..(IF op \in {"setslice", "extend"} THEN MaxBatch ELSE IF op = "setext" THEN 2 ELSE 1) : \E j \in 1..k :
-           \E src \in {"same", "other", "otherdup"} : \E i \in {0, -1, 1} :
+           \E src \in {"same", "other", "otherdup", "freedup"} : \E i \in {0, -1, 1} :
+              \* "freedup": one FREE node occupies two positions of the batch (it cannot be in the list twice)
+              /\ (src = "freedup" => k >= 2 /\ op \in {"setslice", "extend", "setext"})
               \* a donor from this very list must lie outside the replaced range (first item, target = last)
               /\ (src = "same" => n > 0)
               /\ (src = "same" /\ op \in {"setitem", "setslice"} => n >= 2 /\ i = -1)
